@@ -18,6 +18,11 @@ use std::cell::Cell;
 pub struct Counting;
 
 pub const BIG: usize = 256 << 20; // 256 MiB
+/// requests of this size or more are refused (null => the process aborts and
+/// the supervisor records the death): a hash table of that capacity memsets
+/// its control bytes, i.e. really touches the memory, and 16 workers doing
+/// that at once would take the box down.
+pub const HUGE: usize = 1 << 30; // 1 GiB
 
 thread_local! {
     static LIVE: Cell<isize> = const { Cell::new(0) };
@@ -85,6 +90,16 @@ pub fn window_start() -> Snap {
 unsafe impl GlobalAlloc for Counting {
     unsafe fn alloc(&self, layout: Layout) -> *mut u8 {
         let size = layout.size();
+        if size >= HUGE {
+            let _ = MAXREQ.try_with(|m| {
+                if size > m.get() {
+                    m.set(size)
+                }
+            });
+            let msg = b"VERIF-ALLOC-REFUSED\n";
+            unsafe { libc::write(2, msg.as_ptr() as *const _, msg.len()) };
+            return std::ptr::null_mut();
+        }
         if size >= BIG {
             on_alloc(size);
             let p = unsafe {
